@@ -1,4 +1,5 @@
 import FpgoVerif.Proofs.C03Basic
+import FpgoVerif.Proofs.C03Maps
 /-! Loop lemmas for C03: each `Impl.*Loop` computes the corresponding list function (generalised over
     the accumulators so that the induction goes through). -/
 namespace FpgoVerif.C03
@@ -361,5 +362,114 @@ theorem concatLoop_spec (slices : List (Option (List α))) (pre mid post : List 
       have e3 : pre ++ target ++ (mid.drop target.length ++ post) = pre ++ target ++ mid.drop target.length ++ post := by simp
       rw [e2, e3, hn]
       simp
+
+theorem sliceToMapLoop_spec [DecidableEq κ] (d : ν) (xs : List κ) (m : List (κ × ν)) (k : κ) :
+    mget k (xs.foldl (fun resultMap key => if !(mhas key resultMap) then mset resultMap key d else resultMap) m)
+      = match mget k m with | some w => some w | none => if k ∈ xs then some d else none := by
+  induction xs generalizing m with
+  | nil => cases h : mget k m <;> simp [h]
+  | cons x t ih =>
+    simp only [List.foldl_cons]
+    by_cases hx : mhas x m = true
+    · simp only [hx, Bool.not_true, Bool.false_eq_true, if_false, ih]
+      cases h : mget k m with
+      | some w => simp
+      | none =>
+        have hk : mhas k m = false := (mget_eq_none_iff k m).mp h
+        have : k ≠ x := fun e => by subst e; simp [hk] at hx
+        simp [this]
+    · have hx' : mhas x m = false := by simpa using hx
+      simp only [hx', Bool.not_false, if_true, ih, mget_mset]
+      by_cases hk : x = k
+      · subst hk
+        have : mget x m = none := (mget_eq_none_iff x m).mpr hx'
+        simp [this]
+      · have : ¬ k = x := fun e => hk e.symm
+        cases h : mget k m <;> simp [hk, this]
+
+theorem mget_map_const [DecidableEq κ] (d : ν) (xs : List κ) (k : κ) :
+    mget k (xs.map (fun x => (x, d))) = if k ∈ xs then some d else none := by
+  induction xs with
+  | nil => simp [mget]
+  | cons x t ih =>
+    simp only [List.map_cons, mget, ih, List.mem_cons]
+    by_cases h1 : k ∈ t
+    · simp [h1]
+    · by_cases h2 : x = k
+      · simp [h1, h2]
+      · have : ¬ k = x := fun e => h2 e.symm
+        simp [h1, h2, this]
+
+theorem sliceToMapLoop_nodup [DecidableEq κ] (d : ν) (xs : List κ) (m : List (κ × ν)) (h : (m.map (·.1)).Nodup) :
+    ((xs.foldl (fun resultMap key => if !(mhas key resultMap) then mset resultMap key d else resultMap) m).map (·.1)).Nodup := by
+  induction xs generalizing m with
+  | nil => simpa using h
+  | cons x t ih =>
+    simp only [List.foldl_cons]
+    apply ih
+    split
+    · exact nodup_keys_mset _ _ _ h
+    · exact h
+
+theorem zipLoop_spec [DecidableEq κ] (p1 r1 : List κ) (p2 r2 : List ν) (m : List (κ × ν)) (hp : p1.length = p2.length) :
+    ∃ m', Impl.zipLoop (p1 ++ r1) (p2 ++ r2) (r1.zip r2).length p1.length m = .ok m'
+      ∧ (∀ k, mget k m' = match mget k (r1.zip r2) with | some w => some w | none => mget k m)
+      ∧ ((m.map (·.1)).Nodup → (m'.map (·.1)).Nodup) := by
+  induction r1 generalizing r2 p1 p2 m with
+  | nil => exact ⟨m, by simp [Impl.zipLoop], by simp [mget], id⟩
+  | cons a t1 ih =>
+    cases r2 with
+    | nil => exact ⟨m, by simp [Impl.zipLoop], by simp [mget], id⟩
+    | cons b t2 =>
+      obtain ⟨m', h1, h2, h3⟩ := ih (p1 ++ [a]) (p2 ++ [b]) t2 (mset m a b) (by simp [hp])
+      simp only [List.length_append, List.length_cons, List.length_nil, Nat.zero_add, List.append_assoc,
+        List.singleton_append] at h1
+      refine ⟨m', ?_, ?_, ?_⟩
+      · have hb : getN (p2 ++ b :: t2) p1.length = .ok b := by rw [hp]; exact getN_append_cons _ _ _
+        simp only [List.zip_cons_cons, List.length_cons, Impl.zipLoop, getN_append_cons, hb, bind_ok]
+        exact h1
+      · intro k
+        rw [h2 k, mget_mset]
+        simp only [List.zip_cons_cons, mget]
+        cases h : mget k (t1.zip t2) <;> simp
+        by_cases hk : a = k <;> simp [hk]
+      · intro hn
+        exact h3 (nodup_keys_mset _ _ _ hn)
+
+theorem groupByLoop_spec [DecidableEq κ] (g : α → κ) (xs : List α) (m : List (κ × List α)) (k : κ) :
+    mget k (xs.foldl (fun result v => mset result (g v) ((mget (g v) result).getD [] ++ [v])) m)
+      = if (mget k m).isNone ∧ xs.filter (fun y => g y = k) = [] then none
+        else some ((mget k m).getD [] ++ xs.filter (fun y => g y = k)) := by
+  induction xs generalizing m with
+  | nil => cases h : mget k m <;> simp [h]
+  | cons x t ih =>
+    simp only [List.foldl_cons]
+    rw [ih, mget_mset]
+    by_cases hk : g x = k
+    · subst hk
+      simp
+    · simp [hk]
+
+theorem mget_map_key [DecidableEq κ] (g : α → κ) (F : κ → ν) (ys : List α) (k : κ) :
+    mget k (ys.map (fun x => (g x, F (g x)))) = if ys.filter (fun y => g y = k) = [] then none else some (F k) := by
+  induction ys with
+  | nil => simp [mget]
+  | cons y t ih =>
+    simp only [List.map_cons, mget, ih]
+    by_cases hy : g y = k
+    · subst hy
+      by_cases ht : t.filter (fun z => g z = g y) = [] <;> simp [ht]
+    · by_cases ht : t.filter (fun z => g z = k) = []
+      · simp only [ht, if_true, hy, if_false]
+        simp [List.filter_cons, hy, ht]
+      · simp only [ht, if_false]
+        simp [List.filter_cons, hy, ht]
+
+theorem groupByLoop_nodup [DecidableEq κ] (g : α → κ) (xs : List α) (m : List (κ × List α))
+    (h : (m.map (·.1)).Nodup) :
+    ((xs.foldl (fun result v => mset result (g v) ((mget (g v) result).getD [] ++ [v])) m).map (·.1)).Nodup := by
+  induction xs generalizing m with
+  | nil => simpa using h
+  | cons x t ih => exact ih _ (nodup_keys_mset _ _ _ h)
 
 end FpgoVerif.C03
